@@ -81,7 +81,10 @@ def coq_check(c, o):
     a = op.coq(c.args)
     rej = "true" if o["rejected"] else "false"
     same = "true" if (o["recv_same"] or (op.mutating and not o["rejected"])) else "false"
-    if op.guard_c is None:
+    if op.guard_c is None or any(trig(c) for trig in O.TRIGGERS.values()):
+        # inside the trigger region of a known finding the faithful guard and the precondition differ by construction:
+        # pyttb is compared with the precondition (a mismatch is attributed to the finding while the defect is present and
+        # disappears once it is repaired); everywhere else pyttb must agree with both
         return f"c19_pre_agrees (pre_{op.pre_c} {a}) {rej} && {same}"
     return f"c19_agree (guard_{op.guard_c} {a}) (pre_{op.pre_c} {a}) {rej} && {same}"
 
